@@ -25,9 +25,12 @@ def handle (j : Json) : Except String Json := do
   let words ← (← getArr j "words").toList.mapM fun w => do (← w.getArr?).toList.mapM parseQN
   let res := words.map fun w =>
     let v := childErrors A n p.pid w oc
+    let en := encodeErrors A n p.pid w oc
     Json.mkObj [("o", lang w), ("m", v.errors.isEmpty),
       ("e", Json.arr (v.errors.map fun e => Json.arr #[e.index, e.particle, e.occurs]).toArray),
-      ("f", v.fuelOut)]
+      ("f", v.fuelOut),
+      ("ee", Json.arr (en.errors.map fun e => Json.arr #[e.index, e.particle, e.occurs]).toArray),
+      ("ef", en.fuelOut), ("es", encodeSilent A n p.pid w oc)]
   return Json.mkObj [("r", Json.arr res.toArray)]
 
 end XsVerif.Driver.C01
